@@ -8,6 +8,7 @@ import (
 	"fmt"
 	"io"
 	"os"
+	"path/filepath"
 	"strings"
 	"syscall"
 
@@ -44,12 +45,13 @@ type writerPlan struct {
 	CSVAuto    bool
 	Recs       []Rec
 	LongSeq    bool
+	ToFile     int // 0: simulated endpoint; 1: the ...ToFile entry point on a new file; 2: on a file left by a longer run; 3: on a shorter one; 4: longer one, append mode
 	Giant      int // >0: one batch formats to more than Giant bytes (a block larger than any buffer of the output stack)
 }
 
 func (p writerPlan) sample() map[string]any {
 	return map[string]any{"writer": wkNames[p.Kind], "batches": p.N, "sizes": p.Sizes, "arrival": permString(p.Arrival),
-		"workers": p.Workers, "compressed": p.Compressed, "dont_close": p.DontClose, "csv_auto": p.CSVAuto, "records": len(p.Recs), "giant_batch_bytes": p.Giant}
+		"workers": p.Workers, "compressed": p.Compressed, "dont_close": p.DontClose, "csv_auto": p.CSVAuto, "records": len(p.Recs), "giant_batch_bytes": p.Giant, "to_file": p.ToFile}
 }
 
 var sizeTable = []int{1, 0, 2, 3}
@@ -402,6 +404,10 @@ func runC04(rc *RunCtx) {
 		maxN = 12
 	}
 	p := drawWriterPlan(rc.Plan, maxN, false)
+	if p.Kind != wkChunk && p.Giant == 0 && p.N >= 1 && rc.Plan.Choose(6) == 0 {
+		runC04File(rc, p)
+		return
+	}
 	rc.Out.Sample = p.sample()
 	w := simrt.NewSimWriteCloser()
 	res := runWriter(rc, p, w)
@@ -465,6 +471,82 @@ func runC04(rc *RunCtx) {
 	checkWriterOutput(rc, "C04", p, w.Bytes())
 }
 
+// runC04File drives the ...ToFile entry points on a real file of the run's private directory:
+// a new file, a file left by an earlier run (longer or shorter than what is written now), or
+// the same with the append option.
+func runC04File(rc *RunCtx, p writerPlan) {
+	t := rc.Plan
+	p.ToFile = 1 + t.Choose(4)
+	p.DontClose = false
+	if p.ToFile == 4 && (p.Kind == wkJSON || p.Kind == wkCSV) {
+		p.ToFile = 2 // appending to an array or below a header line has no stated meaning
+	}
+	if p.ToFile == 4 {
+		p.Compressed = false
+	}
+	rc.Out.Sample = p.sample()
+	path := filepath.Join(rc.Dir, fmt.Sprintf("c04-%d.out", rc.Index))
+	defer os.Remove(path)
+	var stale []byte
+	switch p.ToFile {
+	case 2, 4:
+		staleFile(t, path, 20000)
+		stale, _ = os.ReadFile(path)
+	case 3:
+		stale = []byte(">x\nac\n")
+		os.WriteFile(path, stale, 0644)
+	}
+	rc.Probe([]string{"", "to_new_file", "to_file_left_by_a_longer_run", "to_file_left_by_a_shorter_run", "append_to_existing_file"}[p.ToFile])
+	batches := makeBatches(p.Recs, p.Sizes, "sim")
+	opts := append(writerOptions(p), obiformats.OptionsAppendFile(p.ToFile == 4))
+	res := rc.Sim(SimOpts{YieldDensity: rc.Sched.Choose(4)}, func() {
+		it := inject(batches, p.Arrival)
+		var out obiiter.IBioSequence
+		var err error
+		switch p.Kind {
+		case wkFasta:
+			out, err = obiformats.WriteFastaToFile(it, path, opts...)
+		case wkFastq:
+			out, err = obiformats.WriteFastqToFile(it, path, opts...)
+		case wkJSON:
+			out, err = obiformats.WriteJSONToFile(it, path, opts...)
+		case wkCSV:
+			out, err = obiformats.WriteCSVToFile(it, path, opts...)
+		case wkAuto:
+			out, err = obiformats.WriteSequencesToFile(it, path, opts...)
+		}
+		if err != nil {
+			panic(err)
+		}
+		out.Consume()
+		obiiter.WaitForLastPipe()
+	})
+	kind := wkNames[p.Kind]
+	rc.Out.Nontrivial = p.N >= 2
+	rc.Out.Key = fmt.Sprintf("file%d/%s/%v/%s/w%d/z%v/%s", p.ToFile, kind, p.Sizes, permString(p.Arrival), p.Workers, p.Compressed, res.Sig)
+	if !rc.Liveness(res, "C04/to-file/"+kind) {
+		return
+	}
+	if res.Exited {
+		rc.Violate("C04/to-file/"+kind+"/unexpected-exit", "the writer ended the process on a fault-free output file: %s", describeExit(res))
+		return
+	}
+	raw, err := os.ReadFile(path)
+	if err != nil {
+		rc.Violate("C04/to-file/"+kind+"/no-file", "%v", err)
+		return
+	}
+	rc.Log("file=%s", sha(string(raw)))
+	if p.ToFile == 4 {
+		if !bytes.HasPrefix(raw, stale) {
+			rc.Violate("C04/to-file/"+kind+"/append-damaged-existing-content", "append mode: the %d bytes already in the file are not at the head of the result (%d bytes)", len(stale), len(raw))
+			return
+		}
+		raw = raw[len(stale):]
+	}
+	checkWriterOutput(rc, "C04/to-file", p, raw)
+}
+
 func init() {
 	register(&Property{
 		ID:     "C04",
@@ -473,7 +555,7 @@ func init() {
 		Random: func(tier string) int { return map[string]int{"quick": 1500, "thorough": 60000}[tier] },
 		Run:    runC04,
 		Level:  "exploration",
-		Rule:   "enumerated part: every arrival permutation of batch numbers 0..n-1 (n<=5 quick, n<=6 thorough) and every subset of empty batches x every permutation (n<=3 quick, n<=4 thorough), for WriteSeqFileChunk directly and for the FASTA/FASTQ/JSON/CSV writers with one formatting worker (arrival at the writer goroutine = injected order); random part: n<=7 (12 thorough), 1-4 formatting workers, gzip on/off, seeded schedules. distinct = distinct (writer, batch sizes, arrival order, workers, compression, schedule signature); non-trivial = >=2 batches and (arrival order not the identity or >=2 formatting workers)",
+		Rule:   "enumerated part: every arrival permutation of batch numbers 0..n-1 (n<=5 quick, n<=6 thorough) and every subset of empty batches x every permutation (n<=3 quick, n<=4 thorough), for WriteSeqFileChunk directly and for the FASTA/FASTQ/JSON/CSV writers with one formatting worker (arrival at the writer goroutine = injected order); random part: n<=7 (12 thorough), 1-4 formatting workers, gzip on/off, seeded schedules; 1 run in 6 goes through the ...ToFile entry points on a real file (new, left by a longer or a shorter run, append mode); 1 in 64 has an 8-11 MB batch. distinct = distinct (writer, batch sizes, arrival order, workers, compression, schedule signature); non-trivial = >=2 batches and (arrival order not the identity or >=2 formatting workers)",
 		Real:   []string{"obiformats.WriteSeqFileChunk", "obiformats.WriteFasta/WriteFastq/WriteJSON/WriteCSV", "obiformats.Format*Batch", "obiutils.CompressStream (bufio + pgzip)", "obiiter iterators (Push/Next/Split/WaitAndClose/WaitForLastPipe)", "obiseq records and pools"},
 		Stub:   []string{"output endpoint (simrt.SimWriteCloser)", "sync.Mutex/RWMutex/WaitGroup/Pool (simrt equivalents)", "goroutine scheduling (simrt scheduler)", "upstream pipeline (harness injector task)"},
 	})
